@@ -24,7 +24,13 @@ EXTRA = ["#pragma version 6\ntxn RekeyTo\ntxn Sender\n==\nassert\ntxn CloseRemai
 EXTRA += ["#pragma version 6\ntxn NumAppArgs\ncallsub sa\nglobal GroupSize\nint 2\n==\nassert\nint 1\nreturn\nsa:\nbz fin\nretsub\nfin:\nint 1\nreturn\n",
           "#pragma version 6\ntxn NumAppArgs\ncallsub sa\nglobal GroupSize\nint 2\n==\nassert\nint 1\nreturn\nsa:\nbz fin\nretsub\nfin:\n"
           "global GroupSize\nint 3\n==\ntxn Fee\nint 1000\n<=\n&&\ntxn RekeyTo\nglobal ZeroAddress\n==\n&&\nassert\nint 1\nreturn\n"]
-NCONTRACTS = 12
+# ... and two contracts that differ ONLY in the index a `gtxns` on the same line takes from the stack (absolute 0 / 1, then
+# GroupIndex + 1 / GroupIndex - 1 on a second shared line): anything remembered per instruction text or line across analyses
+# (a memoised index classification, seeded change C10-d) shows as a different result for the contract analysed second
+_A1 = "AEAQCAIBAEAQCAIBAEAQCAIBAEAQCAIBAEAQCAIBAEAQCAIBAEA5RCDXMI"
+EXTRA += ["#pragma version 6\nint 0\ngtxns RekeyTo\naddr %s\n==\nassert\ntxn GroupIndex\nint 1\n+\ngtxns Fee\nint 1000\n<=\nassert\nint 1\nreturn\n" % _A1,
+          "#pragma version 6\nint 1\ngtxns RekeyTo\naddr %s\n==\nassert\ntxn GroupIndex\nint 1\n-\ngtxns Fee\nint 1000\n<=\nassert\nint 1\nreturn\n" % _A1]
+NCONTRACTS = 14
 ORDERS = [DETECTORS, list(reversed(DETECTORS)), DETECTORS[4:] + DETECTORS[:4]]
 MAXLEN = 3
 
@@ -144,7 +150,7 @@ def collect(prop, tier, seed):
         raise fw.Machinery("vacuous: no history with more than one action")
     cov = {"states": tot["states"], "transitions": tot["transitions"], "traces_validated_against_impl": tot["histories"],
            "evaluations": tot["histories"], "distinct_nontrivial": tot["multi_action"], "hash_seeds": tot["hash_seeds"],
-           "rule": "SessionTrace.tla: histories of Session.tla (up to %d actions over %d sensitising contracts (8 generated, 2 with run-time address operands, 2 with a same-named subroutine that approves by itself) x %d detector "
+           "rule": "SessionTrace.tla: histories of Session.tla (up to %d actions over %d sensitising contracts (8 generated, 2 with run-time address operands, 2 with a same-named subroutine that approves by itself, 2 that differ only in the index a same-line gtxns takes from the stack) x %d detector "
                    "orders, Rerun included) drawn by SessionGen.tla, each replayed in one fresh interpreter (hash seeds "
                    "rotating) and validated as a trace against the results of fresh single-action processes; non-trivial = "
                    "histories with more than one action" % (MAXLEN, NCONTRACTS, len(ORDERS)),
